@@ -256,9 +256,93 @@ def check_support(ctx, cls):
                    'with %s no path of %s returns a finite value (inf, NaN or an exception reject the value)' % (label, FAMILIES[fam]), detail)
 
 
+MUTATORS = ('remove', 'pop', 'append', 'insert', 'clear', 'extend', 'sort', 'reverse', 'update', 'popitem', 'setdefault', '__setitem__', '__delitem__')
+
+
+def prior_mutations(ctx, mod_tree):
+    """Stores into the prior dictionary the caller handed in, or into one of its specification lists, anywhere in pid_interfaces.py.
+    Taint: 'C' the dictionary itself (`prior`, `self.prior`, aliases), 'S' a shallow copy of it (own container, shared lists),
+    'E' one specification list (an item of C or S)."""
+    found = []
+    for fn_ in [x for x in ast.walk(mod_tree) if isinstance(x, ast.FunctionDef)]:
+        taint = {'self.prior': 'C'}
+        for a_ in fn_.args.args:
+            if a_.arg in ('prior', 'prior_dict'):
+                taint[a_.arg] = 'C'
+
+        def level(n):
+            t = src(n).replace(' ', '')
+            if t in taint:
+                return taint[t]
+            if isinstance(n, ast.Subscript) and level(n.value) in ('C', 'S'):
+                return 'E' if not isinstance(n.slice, ast.Slice) else None
+            if isinstance(n, ast.Call) and isinstance(n.func, ast.Attribute) and n.func.attr == 'get' and level(n.func.value) in ('C', 'S'):
+                return 'E'
+            if isinstance(n, ast.Call) and isinstance(n.func, ast.Attribute) and n.func.attr == 'copy' and level(n.func.value) == 'C':
+                return 'S'
+            if isinstance(n, ast.Call) and src(n.func) in ('dict', 'OrderedDict', 'copy.copy') and len(n.args) == 1 and level(n.args[0]) in ('C', 'S'):
+                return 'S'
+            return None
+        for _ in range(3):      # a few passes: aliases defined after use in loops
+            for n in ast.walk(fn_):
+                if isinstance(n, ast.Assign) and len(n.targets) == 1 and isinstance(n.targets[0], (ast.Name, ast.Attribute)):
+                    lv = level(n.value)
+                    if lv is not None and src(n.targets[0]).replace(' ', '') != 'self.prior':
+                        taint[src(n.targets[0]).replace(' ', '')] = lv
+                if isinstance(n, (ast.For, ast.comprehension)):
+                    it = n.iter
+                    if isinstance(it, ast.Call) and isinstance(it.func, ast.Attribute) and level(it.func.value) in ('C', 'S'):
+                        if it.func.attr == 'items' and isinstance(n.target, ast.Tuple) and len(n.target.elts) == 2:
+                            taint[src(n.target.elts[1])] = 'E'
+                        elif it.func.attr == 'values' and isinstance(n.target, ast.Name):
+                            taint[n.target.id] = 'E'
+        for n in ast.walk(fn_):
+            if isinstance(n, ast.Call) and isinstance(n.func, ast.Attribute) and n.func.attr in MUTATORS and level(n.func.value) in ('C', 'E'):
+                found.append('%s(): `%s` changes the %s (%s)' % (fn_.name, src(n)[:60], 'prior dictionary' if level(n.func.value) == 'C' else
+                                                               "caller's prior specification", ctx.loc('pid_interfaces', n)))
+            if isinstance(n, (ast.Assign, ast.AugAssign)):
+                for t in (n.targets if isinstance(n, ast.Assign) else [n.target]):
+                    if isinstance(t, ast.Subscript) and level(t.value) in ('C', 'E'):
+                        found.append('%s(): `%s` stores into the %s (%s)' % (fn_.name, util.stmt_key(n)[:60], 'prior dictionary' if level(t.value) == 'C'
+                                                                            else "caller's prior specification", ctx.loc('pid_interfaces', n)))
+            if isinstance(n, ast.Delete):
+                for t in n.targets:
+                    if isinstance(t, ast.Subscript) and level(t.value) in ('C', 'E'):
+                        found.append('%s(): `%s` (%s)' % (fn_.name, util.stmt_key(n)[:60], ctx.loc('pid_interfaces', n)))
+    return found
+
+
+def positive_set_attr(cls, attr):
+    """is self.<attr> assigned exactly once in the class, to the set / list of the names whose prior specification carries 'positive'
+    (a comprehension over prior.items())?"""
+    defs = [n for n in ast.walk(cls) if isinstance(n, ast.Assign) and any(src(t).replace(' ', '') == 'self.%s' % attr for t in n.targets)]
+    others = [n for n in ast.walk(cls) if isinstance(n, ast.Call) and isinstance(n.func, ast.Attribute) and src(n.func.value).replace(' ', '') == 'self.%s' % attr
+              and n.func.attr in MUTATORS + ('add', 'discard')]
+    if len(defs) != 1 or others:
+        return False
+    v = defs[0].value
+    if isinstance(v, ast.Call) and src(v.func) in ('set', 'frozenset', 'list', 'tuple') and len(v.args) == 1:
+        v = v.args[0]
+    if not isinstance(v, (ast.SetComp, ast.ListComp, ast.GeneratorExp)) or len(v.generators) != 1:
+        return False
+    g = v.generators[0]
+    if not (isinstance(g.iter, ast.Call) and isinstance(g.iter.func, ast.Attribute) and g.iter.func.attr == 'items'
+            and src(g.iter.func.value).replace(' ', '') in ('prior', 'self.prior') and isinstance(g.target, ast.Tuple) and len(g.target.elts) == 2):
+        return False
+    kv, vv = src(g.target.elts[0]), src(g.target.elts[1])
+    conds = [util.canon_test(c).replace(' ', '') for c in g.ifs]
+    return src(v.elt) == kv and conds in (["'positive'in%s" % vv], ["'positive'in%s[1:]" % vv])
+
+
 def check_aggregation(ctx, cls):
     f = method(cls, 'check_prior')
     where = ctx.loc('pid_interfaces', f)
+    # the prior dictionary belongs to the caller (it is handed to every interface built for a run): nothing in the module changes it
+    # or the specification lists in it
+    muts = prior_mutations(ctx, ctx.prog.mod('pid_interfaces').tree)
+    ctx.ob('R16.3-aggregation', 'prior-untouched', not muts, where,
+           "no method changes the caller's prior dictionary or a specification list in it (a second interface built from the same "
+           'dictionary sees the same priors and flags)', '; '.join(muts[:3]))
     # the prior of a parameter is looked up by the parameter's name: the dictionary is never walked by position alongside another sequence
     positional = []
     for fn_ in [x for x in cls.body if isinstance(x, ast.FunctionDef)]:
@@ -283,13 +367,37 @@ def check_aggregation(ctx, cls):
     defs = {n_: v_ for n_, v_ in util.single_defs(body_fn).items() if v_ is not None}
     k_ = lambda t: t.replace(' ', '')
     spec = 'self.prior[%s]' % kv
-    rej = [s_ for s_ in lp.body if isinstance(s_, ast.If) and [util.stmt_key(x) for x in s_.body] == ['return np.inf'] and not s_.orelse]
+    # the rejection: the `return np.inf` statements of the loop body, each with the conditions under which it runs (nested ifs and
+    # conjunctions are the same thing here)
+    rets = [n_ for b_ in lp.body for n_ in ast.walk(b_) if isinstance(n_, ast.Return) and n_.value is not None and k_(src(n_.value)) in ('np.inf', 'numpy.inf')]
+    rej = []
+    for r_ in rets:
+        top = r_
+        while getattr(top, '_parent', None) is not lp and getattr(top, '_parent', None) is not None:
+            top = top._parent
+        if isinstance(top, ast.If) and top in lp.body:
+            rej.append(top)
     ok_pos = False
     pos_detail = ''
-    if len(rej) == 1:
-        t = util.inline(rej[0].test, defs)
-        conj = sorted(k_(util.canon_test(v)) for v in (t.values if isinstance(t, ast.BoolOp) and isinstance(t.op, ast.And) else [t]))
+    if len(rej) == 1 and len(rets) == 1:
+        tests = []
+        cur = rets[0]
+        while getattr(cur, '_parent', None) is not None and cur is not lp:
+            par = cur._parent
+            if isinstance(par, ast.If):
+                tests.append(par.test if cur in par.body else ast.UnaryOp(op=ast.Not(), operand=par.test))
+            cur = par
+        flat = []
+        for t in tests:
+            t = util.inline(t, defs)
+            flat += list(t.values) if isinstance(t, ast.BoolOp) and isinstance(t.op, ast.And) else [t]
+        conj = sorted(k_(util.canon_test(v)) for v in flat)
         ok_pos = conj in (sorted(["'positive'in%s" % spec, '%s<0' % vv]), sorted(["'positive'in%s[1:]" % spec, '%s<0' % vv]))
+        if not ok_pos and len(conj) == 2 and '%s<0' % vv in conj:
+            # the flag looked up in a set of names computed once from the prior specifications
+            other = [c_ for c_ in conj if c_ != '%s<0' % vv][0]
+            if other.startswith('%sinself.' % kv) and other[len('%sinself.' % kv):].isidentifier():
+                ok_pos = positive_set_attr(cls, other[len('%sinself.' % kv):])
         pos_detail = '' if ok_pos else 'rejection test is %s' % ' and '.join(conj)
         # nothing between the loop head and the rejection may return or add to the sum
         before = lp.body[:lp.body.index(rej[0])]
